@@ -176,6 +176,58 @@ type ExtStrictProfile struct{}
 func (ExtStrictProfile) GetName() string             { return ExtStrictName }
 func (ExtStrictProfile) GetClaims() psatoken.IClaims { return NewExtStrictClaims() }
 
+// ---- an extension that RELAXES the base profile: client id optional, instance
+// id not part of the profile (the documented purpose of ValidateClaims +
+// FilterError: "indicate which claims are optional", "disallow some claims") ----
+
+const ExtLaxName = "http://example.com/psa-lax/1.0.0"
+
+type ExtLaxClaims struct {
+	psatoken.P2Claims
+}
+
+func (o *ExtLaxClaims) GetClientID() (int32, error) {
+	if o.ClientID == nil {
+		return 0, psatoken.ErrMissingOptional
+	}
+	return o.P2Claims.GetClientID()
+}
+
+func (o *ExtLaxClaims) GetInstID() ([]byte, error) {
+	if o.InstID == nil {
+		return nil, fmt.Errorf("instance id: %w", psatoken.ErrNotInProfile)
+	}
+	return o.P2Claims.GetInstID()
+}
+
+func (o *ExtLaxClaims) Validate() error { return psatoken.ValidateClaims(o) }
+
+func NewExtLaxClaims() *ExtLaxClaims {
+	p := eat.Profile{}
+	if err := p.Set(ExtLaxName); err != nil {
+		panic(err)
+	}
+	return &ExtLaxClaims{P2Claims: psatoken.P2Claims{Profile: &p, SwComponents: &psatoken.SwComponents[*psatoken.SwComponent]{}, CanonicalProfile: ExtLaxName}}
+}
+
+// ---- a profile whose profile field is identified by its NAME (no cbor tag) and
+// is followed by other fields ---------------------------------------------------------
+
+type ByNameClaims struct {
+	psatoken.IClaims
+	First   *string `json:"aa-first"`
+	Profile *string `json:"x-profile-by-name"`
+	Later   *string `json:"psa-verification-service-indicator"`
+	Last    *int    `json:"zz-last"`
+}
+
+type ByNameProfile struct{ Name string }
+
+func (p ByNameProfile) GetName() string             { return p.Name }
+func (p ByNameProfile) GetClaims() psatoken.IClaims { return &ByNameClaims{} }
+
+const ByNameJSONTag = "x-profile-by-name"
+
 // ---- registration ------------------------------------------------------------------
 
 var registered = map[string]bool{}
